@@ -12,7 +12,8 @@
 From Coq Require Import List NArith Arith Lia Bool ZifyBool ZifyNat ZifyN ZArith.
 From M4 Require Import Base.Bits Lin.Mat Lin.Ops Lin.OpsProofs Lin.Observers Word.WMat Word.WOps
   Word.WMatLemmas Word.WRefineLemmas Word.WRefine Word.WRefine2 Word.WRefine3 Word.WRefine4
-  Word.WRefine5 Word.WRefine6 Word.WRefine7 Word.WRefine8 Word.WRefine9 Word.WRefine10 Word.WRefine11.
+  Word.WRefine5 Word.WRefine6 Word.WRefine7 Word.WRefine8 Word.WRefine9 Word.WRefine10 Word.WRefine11
+  Word.WRefine12 Word.WRefine13.
 Import ListNotations.
 Local Open Scope nat_scope.
 
@@ -200,6 +201,26 @@ Proof.
   intros A1 B1 A2 B2 Hc EA EB.
   rewrite !w_equal_ok, !w_cmp_ok, !w_is_zero_ok, !w_first_zero_row_fixed_ok by assumption.
   now rewrite EA, EB.
+Qed.
+
+Theorem find_pivot_view_only hA mem1 mem2 r0 c0 : valid hA mem1 -> valid hA mem2 ->
+  abs hA mem1 = abs hA mem2 -> w_find_pivot hA r0 c0 mem1 = w_find_pivot hA r0 c0 mem2.
+Proof. intros V1 V2 E. rewrite !w_find_pivot_ok by assumption. now rewrite E. Qed.
+
+(** ** the word model of mzd_init *)
+Theorem alloc_zero_full mem r c : mem_ok mem ->
+  let mem0 := fst (w_alloc mem r c) in let hN := snd (w_alloc mem r c) in
+  valid hN mem0 /\ abs hN mem0 = mzero r c /\ padding_zero hN mem0 /\ owned hN = true.
+Proof.
+  intros Hm. cbv zeta. split; [now apply alloc_valid|]. split; [apply alloc_abs_zero|].
+  split; [apply alloc_padding|reflexivity].
+Qed.
+
+Theorem alloc_old_full mem r c h : valid h mem ->
+  valid h (fst (w_alloc mem r c)) /\ abs h (fst (w_alloc mem r c)) = abs h mem /\
+  wdisjoint (snd (w_alloc mem r c)) h.
+Proof.
+  intros Hv. split; [now apply alloc_old_valid|]. split; [now apply alloc_old_abs|now apply alloc_disjoint].
 Qed.
 
 (** likewise for a writer: the result block depends only on the operand blocks (showcase: addition) *)
